@@ -1454,11 +1454,16 @@ def build_unit(unit_path, repo=REPO):
                 # same self type) so that it can carry `requires` (Verus forbids `requires` on trait impl methods);
                 # what is dropped: the fact that the method is reached through the trait
                 it.d_R4(args[0], args[1], "R7-inherent")
-            elif name == "closure":
+            elif name in ("closure", "closureopt"):
                 # closure <fn> "<anchor: the closure text `|..| EXPR`>" <<< ensures ... >>> : names the closure's
                 # result vx_c and states its postcondition (ghost); the body EXPR stays in place, braces are added
                 occ = int(args[3][1:]) if len(args) > 3 and args[3].startswith("#") else None
-                a, b = it.find_in_fn(args[0], args[1], occ)
+                try:
+                    a, b = it.find_in_fn(args[0], args[1], occ)
+                except Undecided:
+                    if name == "closureopt":
+                        continue
+                    raise
                 bar2 = it.text.index("|", it.text.index("|", a) + 1)
                 if args[1].rstrip().endswith("|"):
                     # only the parameter list was given: the closure body ends at the matching brace, or at the
